@@ -77,7 +77,7 @@ func NewValidateSchema(options plugintypes.OperatorOptions) (plugintypes.Operato
 		return nil, fmt.Errorf("reading schema from root FS: %v", err)
 	}
 
-	key := md5Hash(schemaData)
+	key := "jsonschema:" + md5Hash(schemaData)
 	schema, err := memoizeDo(options.Memoizer, key, func() (any, error) {
 		// Preliminarily validate that the schema is valid JSON
 		var jsonSchema any
